@@ -56,6 +56,19 @@ impl<T: PrimInt + One + Debug + Send + Sync + 'static> AllocWorld<T> {
             double_free,
         }
     }
+    /// the range with every value v, (v - lo) % period == offset, reserved: (hi - lo) / period free runs - far
+    /// more than the handful a range of 5..8 values can have (the interval set is a B-tree: its shape, and with
+    /// it the search path of a look-up, only changes with a dozen or more runs)
+    pub fn new_comb(lo: u64, hi: u64, period: u64, offset: u64) -> Self {
+        let mut w = Self::new(lo, hi, true);
+        for v in lo..=hi {
+            if (v - lo) % period == offset {
+                assert!(w.real.use_value(Self::t(v)), "harness: comb value {v} must be free");
+                w.free.remove(&v);
+            }
+        }
+        w
+    }
     fn t(v: u64) -> T {
         <T as NumCast>::from(v).unwrap()
     }
@@ -231,6 +244,37 @@ fn run_ty<T: PrimInt + One + Debug + Send + Sync + 'static>(rep: &mut Report, nm
     }
 }
 
+/// Many free runs: from every "comb" state (every period-th value reserved) of ranges with 25..97 values, all
+/// operation sequences of length <= 2 (every operation, every value, all queries after each step).
+fn run_combs<T: PrimInt + One + Debug + Send + Sync + 'static>(rep: &mut Report, thorough: bool) {
+    let tmax = T::max_value().to_u64().unwrap();
+    let tname = std::any::type_name::<T>();
+    let sizes: Vec<u64> = if thorough { vec![25, 49, 97, 129] } else { vec![49, 97] };
+    for n in sizes {
+        let mut placements = vec![1u64, tmax - (n - 1)];
+        if thorough {
+            placements.push(0);
+        }
+        for lo in placements {
+            let hi = lo + n - 1;
+            if hi > tmax {
+                continue;
+            }
+            for (period, offset) in [(2u64, 1u64), (2, 0), (3, 1)] {
+                if !thorough && (period, offset) == (2, 0) {
+                    continue;
+                }
+                let w = AllocWorld::<T>::new_comb(lo, hi, period, offset);
+                let cfg = format!("alloc {tname} [{lo}..={hi}] comb={period}/{offset}");
+                let mut ex = Explorer::new(&cfg, Limits::new(2, 400_000, 60.0), rep);
+                ex.merge_audit = false;
+                ex.run(w);
+                rep.count("alloc.comb-configurations", 1);
+            }
+        }
+    }
+}
+
 /// Scripted (deterministic, non-random) long paths on a 2^16 range.
 fn scripted_large(rep: &mut Report) {
     let r = crate::util::guarded(|| {
@@ -287,6 +331,12 @@ pub fn run(rep: &mut Report) {
     run_ty::<u8>(rep, nmax);
     run_ty::<u16>(rep, nmax);
     run_ty::<u32>(rep, if thorough { 7 } else { 4 });
+    run_combs::<u8>(rep, thorough);
+    run_combs::<u32>(rep, thorough);
+    if thorough {
+        run_combs::<u16>(rep, thorough);
+    }
+    rep.floor("alloc.comb-configurations", 4);
     scripted_large(rep);
     rep.set_cov("exhaustive", json!(true));
     rep.set_cov("rule".into(), json!("closure of reachable (interval list, free set) pairs per instance; every operation of the alphabet executed from every state and compared with a BTreeSet model"));
@@ -304,10 +354,20 @@ pub fn replay(config: &str, labels: &[String]) -> Result<Vec<String>, String> {
     let rng = parts[2].trim_matches(|c| c == '[' || c == ']');
     let (lo, hi) = rng.split_once("..=").ok_or("bad range")?;
     let (lo, hi): (u64, u64) = (lo.parse().map_err(|_| "lo")?, hi.parse().map_err(|_| "hi")?);
+    // optional "comb=<period>/<offset>": the exploration started from that prepared state
+    let comb: Option<(u64, u64)> = parts.get(3).and_then(|p| p.strip_prefix("comb=")).and_then(|p| p.split_once('/')).and_then(|(a, b)| Some((a.parse().ok()?, b.parse().ok()?)));
+    macro_rules! go {
+        ($t:ty) => {
+            match comb {
+                Some((p, o)) => crate::explore::replay(AllocWorld::<$t>::new_comb(lo, hi, p, o), labels),
+                None => crate::explore::replay(AllocWorld::<$t>::new(lo, hi, true), labels),
+            }
+        };
+    }
     match parts[1] {
-        "u8" => crate::explore::replay(AllocWorld::<u8>::new(lo, hi, true), labels),
-        "u16" => crate::explore::replay(AllocWorld::<u16>::new(lo, hi, true), labels),
-        "u32" => crate::explore::replay(AllocWorld::<u32>::new(lo, hi, true), labels),
+        "u8" => go!(u8),
+        "u16" => go!(u16),
+        "u32" => go!(u32),
         t => Err(format!("unknown type {t}")),
     }
 }
